@@ -8,6 +8,8 @@ import SharkVerif.Lemmas.MOOInd
 import SharkVerif.Lemmas.MOOStep
 import SharkVerif.Lemmas.MOOElit
 import SharkVerif.Lemmas.MOOHv
+import SharkVerif.Lemmas.Contrib
+import SharkVerif.Lemmas.MOONsga3
 namespace SharkVerif.C14
 open SharkVerif.MOO SharkVerif.Pareto SharkVerif.HV
 
@@ -527,5 +529,135 @@ theorem steady_update_hv_monotone_spec_indicator (m : Nat) (r : Pt) (hr : r.leng
     (hd : ∀ p ∈ parents ++ [o], p.pen.length = m) (hbelow : ∀ p ∈ parents ++ [o], ltAll p.pen r = true) :
     hvSpec (parents.map (·.pen)) r ≤ hvSpec ((steadyUpdate (mkIndicator (specLeast r)) parents o mu).map (·.pen)) r :=
   steady_update_hv_monotone_partial m r hr _ (specLeast_ok r).1 (specLeast_ok r).2 parents o mu hmu hlen hd hbelow
+
+/-- **C14 (the modelled 2-D hypervolume indicator picks a least contributor)**: on every front below the
+reference point the model of `HypervolumeIndicator::leastContributor` (sentinel formula of
+`HypervolumeContribution2D`, lexicographic order, last minimal entry of the heap) returns a position of minimal
+`contribSpec` (uses C13 `contribs2dGo_eq_spec`). -/
+theorem hvLeastRef_least_contributor_2d (r : Pt) (hr : r.length = 2) : LeastContribOn r (hvLeastRef r) := by
+  intro pts hne hlen hlt hnd j hj
+  have hS : ∀ p ∈ pts, p.length = 2 := fun p hp => by rw [hlen p hp, hr]
+  have hle : ∀ p ∈ pts, leAll p r = true := fun p hp => leAll_of_ltAll (hlt p hp)
+  obtain ⟨hperm, hval⟩ := contribs2dGo_eq_spec hS hr hle hnd (pts.zipIdx.mergeSort lexLe)
+    (List.mergeSort_perm _ _) (lexSorted_mergeSort _)
+  have hjmem : j ∈ (contribs2dGo (px r) (py r) (pts.zipIdx.mergeSort lexLe)).map (·.2) :=
+    hperm.mem_iff.mpr (List.mem_range.mpr hj)
+  obtain ⟨c, hc, hcj⟩ := List.mem_map.mp hjmem
+  unfold hvLeastRef
+  simp only [hr, beq_self_eq_true, if_true]
+  unfold hvLeast2d contribs2dLit
+  simp only
+  split
+  · rename_i b hb
+    have h1 := lastMin_le hb c hc
+    rw [hval b (lastMin_mem hb), hval c hc, hcj] at h1
+    exact h1
+  · rename_i hnone
+    cases hl : contribs2dGo (px r) (py r) (pts.zipIdx.mergeSort lexLe) with
+    | nil => rw [hl] at hc; cases hc
+    | cons a as =>
+      rw [hl] at hnone
+      simp only [lastMin] at hnone
+      cases hq : lastMin as <;> rw [hq] at hnone <;> simp at hnone
+      split at hnone <;> simp at hnone
+
+/-- **C14 (steady-state hypervolume never decreases — SMS-EMOA, 2 objectives, modelled indicator)**: for every
+parent population of `mu ≥ 1` individuals and every offspring with 2-dimensional penalized fitness strictly below the
+fixed reference point `r`, `SMSEMOA::updatePopulation` with the modelled `HypervolumeIndicator` never decreases the
+dominated hypervolume.  No hypothesis on the indicator is left. -/
+theorem steady_update_hv_monotone (r : Pt) (hr : r.length = 2) (parents : List Indiv) (o : Indiv) (mu : Nat)
+    (hmu : 1 ≤ mu) (hlen : parents.length = mu)
+    (hd : ∀ p ∈ parents ++ [o], p.pen.length = 2) (hbelow : ∀ p ∈ parents ++ [o], ltAll p.pen r = true) :
+    hvSpec (parents.map (·.pen)) r ≤ hvSpec ((steadyUpdate (mkIndicator (hvLeastRef r)) parents o mu).map (·.pen)) r :=
+  steady_update_hv_monotone_partial 2 r hr _ (hvLeastRef_ok r) (hvLeastRef_least_contributor_2d r hr) parents o mu hmu hlen hd hbelow
+
+/-- **C14 (the same for the steady-state MO-CMA-ES)**: `SteadyStateMOCMA::updatePopulation` is the SMS-EMOA update
+followed by `sortRankOneToFront`, a permutation of the population. -/
+theorem ssmocma_update_hv_monotone (r : Pt) (hr : r.length = 2) (parents : List Indiv) (o : Indiv) (mu : Nat)
+    (hmu : 1 ≤ mu) (hlen : parents.length = mu)
+    (hd : ∀ p ∈ parents ++ [o], p.pen.length = 2) (hbelow : ∀ p ∈ parents ++ [o], ltAll p.pen r = true) :
+    hvSpec (parents.map (·.pen)) r ≤ hvSpec ((ssmocmaUpdate (mkIndicator (hvLeastRef r)) parents o mu).map (·.pen)) r := by
+  unfold ssmocmaUpdate
+  simp only
+  rw [hvSpec_perm ((sortRankOne_perm _ _).map (·.pen))]
+  exact steady_update_hv_monotone r hr parents o mu hmu hlen hd hbelow
+
+/-- along a whole run of the modelled SMS-EMOA with arbitrary variation: the hypervolume is non-decreasing from step to
+step as long as every evaluated offspring stays strictly below the reference point -/
+theorem steady_run_hv_monotone (r : Pt) (hr : r.length = 2) (step1 : List Indiv → List Nat → Indiv) (mu : Nat) (hmu : 1 ≤ mu)
+    (hoff : ∀ pop rnd, (step1 pop rnd).pen.length = 2 ∧ ltAll (step1 pop rnd).pen r = true) :
+    ∀ (rnds : List (List Nat)) (pop : List Indiv), pop.length = mu →
+      (∀ p ∈ pop, p.pen.length = 2 ∧ ltAll p.pen r = true) →
+      hvSpec (pop.map (·.pen)) r ≤
+        hvSpec ((runSteps (fun ps rnd => steadyUpdate (mkIndicator (hvLeastRef r)) ps (step1 ps rnd) mu) pop rnds).map (·.pen)) r
+  | [], pop, _, _ => by simp [runSteps]
+  | rnd :: rs, pop, hlen, hp => by
+    simp only [runSteps]
+    have hall : ∀ p ∈ pop ++ [step1 pop rnd], p.pen.length = 2 ∧ ltAll p.pen r = true := by
+      intro p hp'
+      rcases List.mem_append.mp hp' with h | h
+      · exact hp p h
+      · simp only [List.mem_singleton] at h; subst h; exact hoff pop rnd
+    have h1 := steady_update_hv_monotone r hr pop (step1 pop rnd) mu hmu hlen (fun p h => (hall p h).1) (fun p h => (hall p h).2)
+    refine Nat.le_trans h1 (steady_run_hv_monotone r hr step1 mu hmu hoff rs _ (by rw [steadyUpdate_length]; exact hlen) ?_)
+    intro q hq
+    obtain ⟨p, hp', hc⟩ := steadyUpdate_mem _ pop _ mu q hq
+    simp only [core, Prod.mk.injEq] at hc
+    rw [hc.2.1]; exact hall p hp'
+
+/-! ## NSGA-III -/
+
+/-- the same for **every** family of indicators that satisfy the contract (used for NSGA-III below) -/
+theorem generational_update_elitist_any_indicator (ind : List Pt → Indicator) (hind : ∀ pts, IndOK (ind pts)) (parents offspring : List Indiv) (m mu : Nat)
+    (hd : ∀ p ∈ parents ++ offspring, p.pen.length = m) (hmu : 1 ≤ mu) (hn : mu ≤ parents.length + offspring.length) :
+    (genUpdate ind parents offspring mu).length = mu ∧
+    (∀ k ∈ genUpdate ind parents offspring mu, k.sel = true) ∧
+    (genUpdate ind parents offspring mu).Perm
+      ((applySelect ind (parents ++ offspring) mu).filter (·.sel)) ∧
+    (∀ i j, i < parents.length + offspring.length → j < parents.length + offspring.length →
+      ((applySelect ind (parents ++ offspring) mu).getD i default).sel = true →
+      ((applySelect ind (parents ++ offspring) mu).getD j default).sel = false →
+      ((applySelect ind (parents ++ offspring) mu).getD i default).rank ≤
+        ((applySelect ind (parents ++ offspring) mu).getD j default).rank) := by
+  have hdp : ∀ p ∈ (parents ++ offspring).map (·.pen), p.length = m := by
+    intro p hp
+    obtain ⟨q, hq, rfl⟩ := List.mem_map.mp hp
+    exact hd q hq
+  have hcount : (applySelect ind (parents ++ offspring) mu).countP (·.sel) = mu := by
+    rw [applySelect_countP _ _ mu m hd]
+    exact selection_count_on_sorted_population _ (hind _) _ m mu hdp hmu (by simpa using hn)
+  have htr := truncation_keeps_exactly_the_selected (applySelect ind (parents ++ offspring) mu) mu hcount
+  refine ⟨genUpdate_length _ parents offspring mu hn, htr.1, htr.2, ?_⟩
+  intro i j hi hj hsi hsj
+  have hi' : i < (parents ++ offspring).length := by simpa using hi
+  have hj' : j < (parents ++ offspring).length := by simpa using hj
+  rw [applySelect_sel _ _ _ i hi'] at hsi
+  rw [applySelect_sel _ _ _ j hj'] at hsj
+  rw [applySelect_rank _ _ _ i hi', applySelect_rank _ _ _ j hj']
+  have hlen : (fastSort ((parents ++ offspring).map (·.pen))).length = (parents ++ offspring).length := by
+    rw [fastSort_length hdp]; simp
+  have hsl := select_length (ind ((parents ++ offspring).map (·.pen))) (fastSort ((parents ++ offspring).map (·.pen))) mu
+  apply selection_rank_monotone _ _ mu i j (by omega) (by omega) hsi
+  rw [List.getD_eq_getElem?_getD, List.getElem?_eq_getElem (by omega)] at hsj ⊢
+  simpa using hsj
+
+
+/-- **C14 (NSGA-III niche selection)**: whatever the floating-point association step produced (one `(distance key,
+reference direction)` entry per archive and front point, directions in range), `NSGA3Indicator::leastContributors` returns
+`K` distinct positions of the front; hence `IndicatorBasedSelection<NSGA3Indicator>` marks exactly `mu` individuals and
+the update of `RealCodedNSGAIII` keeps exactly the marked individuals, none of worse rank than a discarded one. -/
+theorem nsga3_update_elitist (nz : Nat) (assocOf : List Pt → List Nat → List Nat → List (Nat × Nat))
+    (hassoc : ∀ pts, AssocOK nz (assocOf pts)) (parents offspring : List Indiv) (m mu : Nat)
+    (hd : ∀ p ∈ parents ++ offspring, p.pen.length = m) (hmu : 1 ≤ mu) (hn : mu ≤ parents.length + offspring.length) :
+    IndOK (nsga3Indicator nz (assocOf ((parents ++ offspring).map (·.pen)))) ∧
+    (genUpdate (fun pts => nsga3Indicator nz (assocOf pts)) parents offspring mu).length = mu ∧
+    (∀ k ∈ genUpdate (fun pts => nsga3Indicator nz (assocOf pts)) parents offspring mu, k.sel = true) ∧
+    (genUpdate (fun pts => nsga3Indicator nz (assocOf pts)) parents offspring mu).Perm
+      ((applySelect (fun pts => nsga3Indicator nz (assocOf pts)) (parents ++ offspring) mu).filter (·.sel)) := by
+  have h := generational_update_elitist_any_indicator (fun pts => nsga3Indicator nz (assocOf pts))
+    (fun pts => nsga3Indicator_ok nz _ (hassoc pts)) parents offspring m mu hd hmu hn
+  exact ⟨nsga3Indicator_ok nz _ (hassoc _), h.1, h.2.1, h.2.2.1⟩
+
+example : nsga3Least 2 1 [(5, 0), (3, 0), (1, 1), (2, 1), (4, 0)] 2 = [2, 3] := by decide
 
 end SharkVerif.C14
